@@ -426,4 +426,6 @@ def run(tier):
     # the exact bounded orbits of Leapfrog.tla replayed bit-exactly into run_leapfrog (positions AND momenta)
     from harness import c07
     c07.orbit_part(ck, tier, only_box=True, reversibility=False)
+    from harness import repotests
+    repotests.run_part(ck, "C04")          # traces of the repository's own MCMC tests, judged by TestRunTrace.tla
     return ck.finish()
